@@ -109,6 +109,7 @@ const c18LongTimeoutMs = 2000
 
 func c18GenLimit(r interface{ Intn(int) int }, timed bool) c18LimScn {
 	sc := c18LimScn{N: 1 + r.Intn(3), Timed: timed, Balanced: r.Intn(3) == 0}
+	tight := r.Intn(2) == 0
 	nclients, percl := 2+r.Intn(5), 2+r.Intn(6)
 	if sc.Balanced && r.Intn(3) == 0 {
 		nclients, percl = 8+r.Intn(57), 2+r.Intn(4)
@@ -116,7 +117,7 @@ func c18GenLimit(r interface{ Intn(int) int }, timed bool) c18LimScn {
 	for c := 0; c < nclients; c++ {
 		var ops []c18LimOp
 		for j := 0; j < percl; j++ {
-			op := c18LimOp{Pre: c18RandDelay(r)}
+			op := c18LimOp{Pre: c18PreDelay(r, tight)}
 			switch x := r.Intn(10); {
 			case x < 3:
 				op.Op = c18OpBorrow
@@ -188,6 +189,7 @@ func c18RunLimit(m *vk.M, idx int, sc c18LimScn) bool {
 	var (
 		wg        sync.WaitGroup
 		start     = make(chan struct{})
+		gate      = c18NewGate(int32(len(sc.Clients)))
 		gauge     int32 // caller-side outstanding (balanced scenarios)
 		gaugeMax  int32
 		parked    int32 // clients inside a borrow that can only end through a Return
@@ -247,6 +249,7 @@ func c18RunLimit(m *vk.M, idx int, sc c18LimScn) bool {
 				}
 			}
 			<-start
+			gate.wait()
 			for _, op := range sc.Clients[ci] {
 				c18Delay(op.Pre)
 				kind := op.Op
